@@ -68,6 +68,7 @@ func (f *FM) reset() {
 
 // setInt writes the Montgomery form of v into register d directly (no parser involved).
 func (f *FM) setInt(d int, v *big.Int) {
+	mustBeBelow(v, bigP, "FSetInt")
 	l := montLimbs(v, bigP)
 	copy(f.F[d].E[:], l[:])
 	f.emitF("FSetInt", kv{"d", d + 1}, kv{"v", be32(v)})
@@ -251,6 +252,39 @@ func genC12(m *M, budget int) {
 			d, a, b := f.rng.Intn(nf), f.rng.Intn(2), f.rng.Intn(2)
 			if f.rng.Intn(3) == 0 {
 				d = a // destination aliases a source
+			}
+			if f.rng.Intn(4) == 0 {
+				// operands chosen for their RESULT: the stored form of a*b, a^2, a+b or a-b is a boundary / structured value
+				// (where the final subtraction and the last carries of that operation decide)
+				t, _ := f.resultTarget(bigP)
+				t = mulmod(t, rInvP, bigP) // the value whose stored form is that
+				av := new(big.Int).SetBytes(f.F[0].Bytes())
+				if av.Sign() != 0 {
+					switch f.rng.Intn(4) {
+					case 0: // product
+						f.setInt(1, mulmod(t, new(big.Int).ModInverse(av, bigP), bigP))
+						f.class("field:product_structured")
+					case 1: // square
+						if r := new(big.Int).ModSqrt(t, bigP); r != nil {
+							if f.rng.Intn(2) == 0 && r.Sign() != 0 {
+								r.Sub(bigP, r)
+							}
+							f.setInt(0, r)
+							f.setInt(1, r)
+							f.class("field:square_structured")
+						}
+					case 2: // sum
+						f.setInt(1, new(big.Int).Mod(new(big.Int).Sub(t, av), bigP))
+						f.class("field:sum_structured")
+					default: // difference (either order)
+						f.setInt(1, new(big.Int).Mod(new(big.Int).Sub(av, t), bigP))
+						f.class("field:difference_structured")
+					}
+					a, b = 0, 1
+					if f.rng.Intn(2) == 0 {
+						a, b = 1, 0
+					}
+				}
 			}
 			ids := []kv{{"d", d + 1}, {"a", a + 1}, {"b", b + 1}}
 			switch f.rng.Intn(18) {
